@@ -34,6 +34,7 @@ type Kernel struct {
 	RcvBuf       int  // datagrams a socket queues before the kernel drops (0 = 256)
 	NoRawConn    bool // SyscallConn fails: portable reader/sender
 	RecvmmsgErr  syscall.Errno
+	RecvmmsgErrFrom time.Duration // the errno starts at this time since NewKernel (0 = from the start)
 	SendmmsgErr  syscall.Errno
 	PartialSend  int                      // >0: a sendmmsg accepts at most this many messages
 	PoisonDest   map[netip.AddrPort]bool  // sends to these fail with EPERM
@@ -109,7 +110,7 @@ func (s *Sock) TryRecv(max int, batch bool) ([]verifsrvnet.Datagram, syscall.Err
 	if s.closed {
 		return nil, syscall.EBADF
 	}
-	if batch && s.k.RecvmmsgErr != 0 {
+	if batch && s.k.RecvmmsgErr != 0 && time.Since(s.k.start) >= s.k.RecvmmsgErrFrom {
 		return nil, s.k.RecvmmsgErr
 	}
 	n := len(s.q)
